@@ -1,6 +1,8 @@
 """C05 - concurrent users of one UDS client.  2..5 real tasks (typed service calls, send_raw(), the cyclic tester-present
 worker with its start / stop, reconnects) share one real ECU client over a scripted wire with ONE inbox under virtual
-time; the client lock, the transport, asyncio.sleep and create_task are instrumented from outside.  Two things are
+time; the client lock (the client's OWN mutex object, re-classed in place so that the lock class the client chose runs underneath the
+instrumentation; the real lock is asked `locked()` once everybody has ended), the transport, asyncio.sleep and create_task are instrumented
+from outside.  Two things are
 recorded per run and replayed through the Lean models:
 
   * the event trace (want / got / op / rel / unwait / ended) for the lock-discipline acceptor (Model/ClientConc.lean);
@@ -52,6 +54,15 @@ ASSUMPTIONS = [
     "an unreachable target is a connect() that raises ConnectionRefusedError (also TimeoutError / OSError) on the scripted wire; one connection attempt "
     "takes 50 virtual ms; 'never returns' means: not within 120 virtual seconds after the call (the harness cap), which for the modelled loop "
     "(reconnect_bounded: at most timeout/100 ms + 1 attempts) is far beyond every deadline used",
+    "the client mutex is instrumented in place (instance re-classed to a tracing subclass of its own class), so acquire() / release() of whatever "
+    "asyncio.Lock subclass the client uses run for real; a mutex that is not an asyncio.Lock is replaced by a traced plain asyncio.Lock (the "
+    "regenerated lock-site table reports the changed creation site)",
+    "a waiting caller is cancelled by Task.cancel() at its acquire, by an asyncio.wait_for() deadline (deadlines chosen so that they do not coincide "
+    "with another event of the run; the caller gives up after the deadline) and by stop_cyclic_tester_present() of a queued worker; a caller "
+    "that goes on using the client after its own wait_for() timed out is covered by the model (a cancelled call ends, the next call is a new "
+    "round) but not provoked by the tie",
+    "ReadMemoryByAddress replies carry neither address nor format identifier: a late reply for the SAME number of bytes is indistinguishable from "
+    "the caller's own (rmba_same_size_indistinguishable); for a different number of bytes it is foreign (rmba_cross_is_foreign)",
     "the scripted wire keeps its inbox across reconnect() (a late reply may arrive on the new connection): the adversarial choice; the model's network "
     "may deliver any message at any time anyway",
 ]
@@ -181,8 +192,23 @@ class Tracer:
             self.inside.discard(i)
 
 
-def make_lock(tr):
-    class TracingLock(asyncio.Lock):
+def make_lock(tr, real=None):
+    """the client's OWN mutex, instrumented in place: the tracing class is derived from the class of the lock the client created and the
+    instance is re-classed, so whatever that class does in acquire() / release() (inner tasks, polling, logging) runs underneath the
+    instrumentation; a mutex that is not an asyncio.Lock (or cannot be re-classed) is replaced by a traced plain asyncio.Lock as before"""
+    base = type(real) if isinstance(real, asyncio.Lock) else asyncio.Lock
+    cls = _tracing_lock_class(tr, base)
+    if isinstance(real, asyncio.Lock) and not real.locked():
+        try:
+            real.__class__ = cls
+            return real
+        except TypeError:
+            pass
+    return _tracing_lock_class(tr, asyncio.Lock)()
+
+
+def _tracing_lock_class(tr, base):
+    class TracingLock(base):
         async def acquire(self):
             i = tr.tid()
             if i in tr.auto:
@@ -213,7 +239,7 @@ def make_lock(tr):
                     tr.delivered(i)
                 tr.old("rel")
                 tr.holder = None
-                asyncio.Lock.release(self)
+                super().release()
                 return None
             self.release()
             return None
@@ -226,7 +252,7 @@ def make_lock(tr):
             tr.holder = None
             super().release()
 
-    return TracingLock()
+    return TracingLock
 
 
 class Net:
@@ -363,6 +389,14 @@ def reply_script(kind, pdu):
     if pdu[0] == 0x22:
         pos = bytes([0x62, pdu[1], pdu[2], 0xAB])
         other = bytes([0x62, pdu[1], pdu[2] ^ 0x80, 0xCD])
+    elif pdu[0] == 0x23 and len(pdu) >= 2:
+        # ReadMemoryByAddress: addressAndLengthFormatIdentifier (low nibble: bytes of the address, high nibble: bytes of the size), address, size;
+        # the positive reply carries exactly `size` bytes (taken from the address, so replies to different requests differ), nothing is echoed
+        al, sl = pdu[1] & 0x0F, pdu[1] >> 4
+        addr = int.from_bytes(pdu[2: 2 + al], "big")
+        size = min(int.from_bytes(pdu[2 + al: 2 + al + sl], "big"), 64)
+        pos = bytes([0x63]) + bytes(((addr >> 8) + (addr & 0xFF) + k) & 0xFF for k in range(size))
+        other = bytes([0x63]) + bytes([0xCD] * (size + 1))
     else:
         # positive reply of a sub-function service: the sub-function is echoed WITHOUT the suppressPosRspMsgIndication bit, then the identifier
         pos = bytes([(pdu[0] + 0x40) & 0xFF]) + bytes([b & 0x7F for b in pdu[1:2]]) + pdu[2:4]
@@ -443,6 +477,9 @@ def invoke(client, api, did, pdu, cfg):
         return client.read_data_by_identifier(did, config=cfg)
     if api == "ping":
         return client.ping(config=cfg)
+    if api.startswith("rmba:"):  # rmba:<format identifier | none>:<address>:<size>: the same service with explicit, possibly non-minimal options
+        _, alfid, addr, size = api.split(":")
+        return client.read_memory_by_address(int(addr), int(size), None if alfid == "none" else int(alfid), config=cfg)
     _, name, sup = api.split(":")
     return getattr(client, name)(**svc_args(name, did), suppress_response=(sup == "1"), config=cfg)
 
@@ -521,8 +558,8 @@ async def scenario(spec, cancel_at):
 
     pdus = {}
     for d in spec["tasks"]:
-        if d[0] == "req":
-            for api, did, _script, _m in d[2]:
+        if d[0] in ("req", "reqd"):
+            for api, did, _script, _m in d[-1]:
                 pdus[(api, did)] = await call_pdu(api, did)
 
     def plan(pdu, k):
@@ -539,7 +576,7 @@ async def scenario(spec, cancel_at):
     net.rc_default = spec.get("rc_default") or "o"
     wire = make_wire(tr, net)
     ecu = ECU(wire, timeout=TIMEOUT, max_retry=0)
-    ecu.mutex = make_lock(tr)
+    ecu.mutex = make_lock(tr, getattr(ecu, "mutex", None))
     if spec.get("believed_session"):
         ecu.state.session = spec["believed_session"]
         ecu.state.security_access_level = spec.get("believed_level")
@@ -578,7 +615,7 @@ async def scenario(spec, cancel_at):
     results = {}   # tid -> list of (round index, result)
     reqs = {}      # (tid, round index) -> request bytes
 
-    async def caller(offset, calls):
+    async def caller(offset, calls, deadline=None):
         i = tr.register(asyncio.current_task())
         results[i] = []
         await orig_sleep(offset)
@@ -591,11 +628,19 @@ async def scenario(spec, cancel_at):
             reqs[(i, n)] = pdu
             cfg = UDSRequestConfig(max_retry=max_retry)
             try:
-                resp = await invoke(ecu, api, did, pdu, cfg)
+                if deadline is None:
+                    resp = await invoke(ecu, api, did, pdu, cfg)
+                else:  # asyncio.wait_for(): the deadline cancels this very task at whatever await it is suspended in
+                    resp = await asyncio.wait_for(invoke(ecu, api, did, pdu, cfg), deadline)
                 results[i].append((n, ("reply", resp.pdu.hex()) if resp is not None else ("none",)))
             except asyncio.CancelledError:
                 results[i].append((n, ("cancelled",)))
                 raise
+            except TimeoutError as e:
+                if deadline is not None and i in tr.x_done:  # the deadline's cancellation was delivered inside the call: the caller gives up
+                    results[i].append((n, ("cancelled", "wait_for-deadline")))
+                    return
+                results[i].append((n, (classify_exc(e, G),)))
             except Exception as e:
                 results[i].append((n, (classify_exc(e, G),)))
             tr.end_round(r)
@@ -623,8 +668,11 @@ async def scenario(spec, cancel_at):
         r = tr.begin_round(i, ("A", 0))
         await ecu.start_cyclic_tester_present(INTERVAL)
         tr.end_round(r)
-        await callers_done.wait()
-        await orig_sleep(0.5)
+        if spec.get("stop_at") is not None:  # the worker is stopped in the middle of the run (it may be waiting for the client just then)
+            await orig_sleep(spec["stop_at"])
+        else:
+            await callers_done.wait()
+            await orig_sleep(0.5)
         w = tr.ids.get(ecu.tester_present_task, 0)
         r = tr.begin_round(i, ("Z", w))
         await ecu.stop_cyclic_tester_present()
@@ -670,16 +718,18 @@ async def scenario(spec, cancel_at):
         if spec.get("worker"):
             ctl = asyncio.ensure_future(controller())
         for d in spec["tasks"]:
-            if d[0] == "req":
-                for api, did, script, _m in d[2]:
+            if d[0] in ("req", "reqd"):
+                for api, did, script, _m in d[-1]:
                     if pdus[(api, did)] is not None:
                         scripts_by_pdu[pdus[(api, did)]] = script
         tasks = []
         for d in spec["tasks"]:
-            if d[0] == "req" and all(pdus[(api, did)] is None for api, did, _s, _m in d[2]):
+            if d[0] in ("req", "reqd") and all(pdus[(api, did)] is None for api, did, _s, _m in d[-1]):
                 continue  # every call of this task is refused by the method itself before anything is sent: not a user of the client
             if d[0] == "req":
                 tasks.append(asyncio.ensure_future(caller(d[1], d[2])))
+            elif d[0] == "reqd":
+                tasks.append(asyncio.ensure_future(caller(d[1], d[3], deadline=d[2])))
             elif d[0] == "wfe":
                 tasks.append(asyncio.ensure_future(ecu_waiter(d[1])))
             else:
@@ -702,10 +752,11 @@ async def scenario(spec, cancel_at):
                 tr.cancel_task(wt)
                 await asyncio.wait([wt], timeout=5)
         await orig_sleep(0.01)
+        locked_end = bool(ecu.mutex.locked())  # the REAL lock object, asked directly once everybody has ended
     finally:
         asyncio.sleep = orig_sleep
         asyncio.create_task = orig_create_task
-    return {"events": tr.events, "sched": tr.sched, "rounds": tr.rounds, "results": results, "reqs": reqs, "stuck": stuck,
+    return {"locked_end": locked_end, "events": tr.events, "sched": tr.sched, "rounds": tr.rounds, "results": results, "reqs": reqs, "stuck": stuck,
             "stuck_tids": stuck_tids, "lock_at_cap": lock_at_cap,
             "count": dict(tr.count), "workers": sorted(tr.worker_tids), "misuse": tr.misuse, "auto": sorted(tr.auto)}
 
@@ -856,6 +907,51 @@ def gen_specs(ctx):
     ctx.exhaustive_parts.append("unreachable target: connect refused 1..3 times then accepted / refused forever (also after one success, a timeout, an "
                                 "OSError) x {explicit reconnect(), automatic reconnect of a request with max_retry 1, 2 after read error / end of stream / "
                                 "write fault / loss while pending} x second caller {immediate, pending, timeout} x worker on/off")
+    # (3e) a caller that WAITS for the client behind another task's long exchange is cancelled - Task.cancel() (the enumeration below cancels every
+    # task of these sets at every await, so also B and C while they wait), an asyncio.wait_for() deadline (firing while B waits / while B holds), the
+    # worker being stopped while it is queued - and further callers follow (C queued behind it, D arriving after everything): all must progress
+    end_a = {"slow": 0.3, "pend": 0.8, "late": TIMEOUT, "timeout": TIMEOUT}
+    for a in ("slow", "pend", "late", "timeout"):
+        for mode in ("cancel", "deadline-wait", "deadline-hold", "stop"):
+            for tpw in (False, True):
+                if mode == "stop" and not tpw:
+                    continue
+                did[0] = 0x1600
+                a_off = 0.1 if mode == "stop" else 0.0
+                ta = [("req", a_off, [call(a, 0)])]
+                if mode == "cancel":
+                    ta.append(("req", 0.05, [call("imm", 0)]))
+                elif mode == "deadline-wait":
+                    ta.append(("reqd", 0.05, 0.137, [call("imm", 0)]))
+                elif mode == "deadline-hold":
+                    ta.append(("reqd", 0.05, end_a[a] - 0.05 + 0.137, [call("slow", 0)]))
+                ta.append(("req", 0.2, [call("imm", 0, "raw")]))
+                ta.append(("req", a_off + end_a[a] + 0.9, [call("imm", 0), call("imm", 0)]))
+                sp = {"tasks": ta, "worker": tpw, "wcancel": True}
+                if mode == "stop":
+                    sp["stop_at"] = 0.38  # the worker asked for the client at 0.35 and is queued behind A (and C)
+                specs.append(sp)
+    ctx.exhaustive_parts.append("cancellation of a WAITING caller: first caller {slow, pending, late, timeout} holds the client x the queued caller is ended "
+                                "by {Task.cancel() at every await of every task, wait_for() deadline while waiting, wait_for() deadline while holding, "
+                                "stop of the queued tester-present worker} x worker on/off, followed by a caller queued behind it and a later caller "
+                                "with two calls")
+    # (3f) late-reply crossing between requests of the SAME service that differ only in their parameters and are built with explicit options:
+    # ReadMemoryByAddress with the default (minimal) and explicit, non-minimal address-and-length format identifiers, different addresses / sizes;
+    # nothing in the reply but what the codec's own matching looks at (the number of bytes) tells the replies apart
+    def rcall(kind, alfid, addr, size, max_retry=0):
+        return (f"rmba:{'none' if alfid is None else alfid}:{addr}:{size}", fresh(), kind if max_retry == 0 else [kind, "imm"], max_retry)
+
+    for fa, fb in ((None, None), (0x24, 0x24), (0x44, 0x44), (0x24, 0x44), (0x12, None), (0x14, 0x24)):
+        for (sa, sb) in ((4, 8), (8, 3), (4, 4)):
+            for a in ("late", "slow", "pend"):
+                for b in ("imm", "slow", "pend", "timeout", "late"):
+                    for tpw in ((False, True) if fa == fb else (False,)):
+                        did[0] = 0x1700
+                        specs.append({"tasks": [("req", 0.0, [rcall(a, fa, 0x1000, sa)]), ("req", 0.05, [rcall(b, fb, 0x2000, sb)])],
+                                      "worker": tpw, "cross": tpw})
+    ctx.exhaustive_parts.append("reply crossing within ONE service with explicit options: read_memory_by_address with address_and_length_format_identifier "
+                                "{default, 0x24, 0x44, 0x24 vs 0x44, 0x12 vs default, 0x14 vs 0x24} x sizes {4 vs 8, 8 vs 3, 4 vs 4} x first caller {late, "
+                                "slow, pending} x second caller {immediate, slow, pending, timeout, late}")
     # (4) 3..5 tasks sampled, two calls per task possible
     allk = OLD_KINDS + NEW_KINDS
     for _ in range(ctx.pick(300, 1500)):
@@ -913,7 +1009,7 @@ def run(ctx):
     cases = [(sp, None) for sp in specs]
     # cancellation at every instrumented await (lock acquire, write, read, backoff sleep, reconnect, the worker's interval sleep, start's sleep(0))
     stride = ctx.pick(4, 1)
-    cancel_specs = [sp for k, sp in enumerate(specs) if sp.get("cross") or k % stride == 0]
+    cancel_specs = [sp for k, sp in enumerate(specs) if sp.get("cross") or sp.get("wcancel") or k % stride == 0]
     for sp in cancel_specs:
         try:
             base, _ = vrun(scenario(sp, None), horizon=1e5)
@@ -959,6 +1055,13 @@ def evaluate(ctx, cases):
                          f"client lock was held by task {holder} and waited for by {waiting}; schedule starts: " + " ".join(r["sched"][:24])
                          + " ... ends: " + " ".join(r["sched"][-8:]),
                          {**case, "sched_head": " ".join(r["sched"][:60])}, impl=_fmt(events)[-600:], spec_violated=True, site="UDSClient._request / reconnect (lock not released?)")
+            continue
+        if r["locked_end"]:
+            ctx.disagree("conc:lock-still-held-at-end",
+                         "every task has ended (reply, error or cancellation) but the client's own mutex still reports locked(): somebody who is "
+                         "not a caller any more holds it, the next user would block for ever; schedule ends: " + " ".join(r["sched"][-16:]),
+                         {**case, "sched_head": " ".join(r["sched"][:60])}, impl=_fmt(events)[-600:], spec_violated=True,
+                         site="UDSClient.mutex (acquire / release of the lock class the client uses)")
             continue
         ml, tids = model_lines(r)
         start = len(lines)
@@ -1247,10 +1350,10 @@ def _spec_from_json(sp):
 
 
 def _fmt_task(d):
-    if d[0] == "req":
+    if d[0] in ("req", "reqd"):
         calls = ", ".join(f"{api} {did_pdu(did).hex() if api in ('typed', 'raw') else '(arguments from %#x)' % did} script={script} max_retry={mr}"
-                          for api, did, script, mr in d[2])
-        return f"caller at +{d[1]}s: {calls}"
+                          for api, did, script, mr in d[-1])
+        return f"caller at +{d[1]}s" + (f" under asyncio.wait_for(..., {d[2]})" if d[0] == "reqd" else "") + f": {calls}"
     return {"wfe": "wait_for_ecu()", "reconnect": "reconnect()"}.get(d[0], d[0]) + f" at +{d[1]}s"
 
 
@@ -1351,7 +1454,12 @@ MANIFEST = {
                    "caller must be the model's; independently of the model each caller must get a reply genuine to its request BYTES or an error, "
                    "no task may transmit while another task's exchange is open on the wire, and nobody may stay blocked. The callers cover the "
                    "public surface: tester_present / ping and every public method with a suppress_response option (off and on) next to an exchange "
-                   "in flight (incl. a ResponsePending extension). Reconnects run against a target that refuses k times and then accepts or stays "
+                   "in flight (incl. a ResponsePending extension); the late-reply schedules also run between two ReadMemoryByAddress requests built "
+                   "with default and explicit (0x24, 0x44, mixed) address-and-length format identifiers and different sizes, where only the "
+                   "codec's own matching tells the replies apart (rmba_cross_is_foreign, rmba_same_size_indistinguishable). The client's own "
+                   "mutex object is instrumented in place and asked locked() at the end; a caller WAITING for it behind a long exchange is "
+                   "cancelled (Task.cancel at every await of every task, wait_for deadline while waiting / holding, stop of the queued worker) "
+                   "with a queued and a later caller behind it, all of which must progress. Reconnects run against a target that refuses k times and then accepts or stays "
                    "away for good (explicit reconnect() and the automatic reconnect of a retried request, with a second user and the worker); "
                    "Model/TransportReconnect.lean models BaseTransport.reconnect(timeout) - one attempt without a timeout, a 100 ms retry loop under a "
                    "deadline - with reconnect_without_timeout_single_attempt, reconnect_bounded, reconnect_unreachable_target_fails for every stream "
